@@ -337,3 +337,110 @@ def replay(cx, ex, model, contract):
     if not bad:
         out['reason'] = 'native run agrees with the reference on this model'
     return out
+
+
+# ------------------------------------------------------------------------------------------------ bounded stand-in for fragments
+class ScriptWorld:
+    """concrete world from explicit child tables (no solver model): used to look for a concrete failing child behaviour when a
+    counter-model does not replay (loop units) or the solver leaves a VC undecided"""
+
+    def __init__(self, cx, N, p0, tables, status_in=False):
+        self.cx, self.N, self.p0, self.tables = cx, N, p0, tables
+        self.text = (b'\x01' if cx.text.is_bytes else '\x01') * N
+        self.calls = 0
+        self.log = []
+        self.status_in = status_in
+
+    def tick(self):
+        self.calls += 1
+        if self.calls > 60:
+            raise Diverged('more than 60 child calls')
+
+    def child(self, k, pos, user_env=None):
+        self.tick()
+        ok, nxt = self.tables[k][pos]
+        r = (True, ('val', k, pos), nxt) if ok else (False, ('err', k, pos), nxt)
+        self.log.append((f'child{k}', pos, ok, nxt))
+        return r
+
+    def is_err(self, x):
+        return isinstance(x, tuple) and x and x[0] == 'err'
+
+
+def _child_tables(c, N):
+    """all behaviours of one child over positions 0..N that satisfy its contract (flags)"""
+    import itertools
+    per_pos = []
+    for p in range(N + 1):
+        opts = []
+        for e in range(N + 1):
+            opts.append((True, e))
+        if not c.a_s:
+            if c.cps:
+                for e in range(N + 1):
+                    opts.append((False, e))
+            else:
+                opts.append((False, p))
+        per_pos.append(opts)
+    return itertools.product(*per_pos)
+
+
+def bounded_fragment(cx, contract, N=2, limit=6000):
+    """-> (violations, tried, bound): the emitted text run natively on EVERY contract-conforming child behaviour over positions 0..N"""
+    import itertools
+    import random
+    if not hasattr(contract, 'ref') or cx.user_names or cx.user_sorts or any(isinstance(v, (str, bytes)) and v for _, v in cx.ex.lits):
+        return [], 0, 'not applicable to this unit (real leaves / user names)'
+    ks = sorted(cx.kids)
+    spaces = [list(_child_tables(cx.kids[k], N)) for k in ks]
+    total = 1
+    for s in spaces:
+        total *= len(s)
+    rnd = random.Random(0)
+    bad, tried = [], 0
+    combos = itertools.product(*spaces) if total <= limit else (tuple(rnd.choice(s) for s in spaces) for _ in range(limit))
+    body = textwrap.indent(cx.src, '    ') if cx.src.strip() else '    pass\n'
+    code = f"def __frag__(_text, _pos, _status, _result):\n{body}\n    return ('__done__', _status, _result, _pos)\n"
+    for combo in combos:
+        tables = {k: dict(enumerate(t)) for k, t in zip(ks, combo)}
+        for p0 in range(N + 1):
+            tried += 1
+            W = ScriptWorld(cx, N, p0, tables)
+            g = {f'_CHILD_{k}': (lambda k: (lambda _text, _pos: W.child(k, _pos)))(k) for k in ks}
+
+            class _G(dict):
+                def __missing__(self, key):
+                    if key.startswith('_raise_error'):
+                        return ('err', key)
+                    import builtins
+                    return getattr(builtins, key)
+            gg = _G(g)
+            try:
+                exec(compile(code, '<fragment>', 'exec'), gg)
+                r = gg['__frag__'](W.text, p0, False, None)
+                W2 = ScriptWorld(cx, N, p0, tables)
+                ok, val, end = contract.ref(cx, W2, {})
+            except Diverged:
+                continue
+            except (IndexError, KeyError, TypeError, ValueError, AttributeError, NameError, UnboundLocalError) as e:
+                bad.append({'p0': p0, 'N': N, 'children': {k: dict(t) for k, t in tables.items()}, 'raised': f'{type(e).__name__}: {e}'})
+                if len(bad) >= 3:
+                    return bad, tried, f'all child behaviours over positions 0..{N}'
+                continue
+            _, status, result, pos = r
+            why = None
+            if bool(status) != ok:
+                why = f'_status={status}, spec ok={ok}'
+            elif ok and (result != val or pos != end):
+                why = f'(_result, _pos)=({result!r}, {pos}), spec ({val!r}, {end})'
+            elif not ok and not W.is_err(result):
+                why = f'_result={result!r} is not an error function'
+            elif not ok and not cx.node.can_partially_succeed() and pos != p0:
+                why = f'failed at _pos={pos} != p0={p0} although can_partially_succeed() is False'
+            elif not (0 <= pos <= N):
+                why = f'_pos={pos} out of range'
+            if why:
+                bad.append({'p0': p0, 'N': N, 'children (k -> pos -> (ok, next pos))': {k: dict(t) for k, t in tables.items()}, 'violated': why, 'log': W.log[-8:]})
+                if len(bad) >= 3:
+                    return bad, tried, f'all child behaviours over positions 0..{N}'
+    return bad, tried, f'{"all" if total <= limit else str(limit) + " sampled"} contract-conforming child behaviours over positions 0..{N}, every start position'
